@@ -65,6 +65,10 @@ class _DeBruijn(ast.NodeTransformer):
         self.stack.pop()
         return node
 
+    def visit_Tuple(self, node):
+        # the text wire format has no tuples: a tuple arrives as a list, and the quoted query spells it that way
+        return ast.copy_location(ast.List(elts=[self.visit(e) for e in node.elts], ctx=node.ctx), node)
+
     def visit_Call(self, node):
         # a free name in call position is a function name: compared exactly
         if isinstance(node.func, ast.Name) and not any(node.func.id in f for f in self.stack):
